@@ -13,7 +13,7 @@ func init() {
 	register(&propDef{
 		ID: "C03",
 		Info: propInfo{
-			Technique: "path analysis + lockset/lock-order analysis + lifecycle table on the type-checked AST",
+			Technique:   "path analysis + lockset/lock-order analysis + lifecycle table on the type-checked AST",
 			Explanation: "Decides structural necessary conditions of progress: (R03.1) a notify follows every enabling state change: a successful Enqueue in every submit function bound to a worker, the in-flight decrement in the completion callback, every store of Running (Resume, start, Restart), a limit store in TunePool unless a comparison showed the limit did not grow, the 'enqueued' case of the subscription handler, and Purge; (R03.2) every send on the signal and error channels is a select case with a default, under the worker lock; they are closed and re-assigned only under the write lock, closed behind a nil test and followed by a nil assignment; nobody else sends on them; (R03.3) the lock-order graph is acyclic, no lock is re-acquired while held, and no blocking operation (plain channel send/receive, WaitGroup.Wait, Sleep) is performed while a lock is held, Cond.Wait only under exactly its own lock; (R03.4) the dispatcher calls the step only inside a loop whose condition tests running, capacity and pending>0 in the same iteration, and a step error neither returns nor breaks out; (R03.5) every path of the completion callback either pushes the node back or stops and recycles it, exactly one of the two, before the in-flight decrement; plus the pool-node ownership typestate (R01.4), since a job sent to a node nobody serves is stuck in Processing.",
 			NotDecided:  []string{"sufficiency of the wake-up protocol as a whole (that the one-slot coalescing signal cannot be consumed before the state it announces is visible)", "worker functions that never return", "fairness of the Go scheduler"},
 			Assumptions: []string{"sync.Cond, channels and RWMutex behave as documented", "lock identity is per (type, field)"},
